@@ -56,14 +56,18 @@ Definition subs_of (items : list item) : list (labels * list sample) :=
   flat_map (fun s : pseries => map (fun r => (fst s, chunk_iter r)) (overlap_split (snd s)))
            (map (fun x => (i_lbl x, i_cs x)) items).
 
+Lemma subs_of_cons x items :
+  subs_of (x :: items)
+  = map (fun w => (i_lbl x, w)) (map chunk_iter (overlap_split (i_cs x))) ++ subs_of items.
+Proof. unfold subs_of. cbn [map flat_map fst snd]. rewrite map_map. reflexivity. Qed.
+
 Lemma group_items : forall items,
   Forall item_ok items -> adj_distinct (map i_lbl items) ->
   group_adj (subs_of items) = map (fun x => (i_lbl x, i_L x :: ws_of x)) items.
 Proof.
   induction items as [|x items IH]; intros HF Hd; [reflexivity|].
   inversion HF as [|? ? Hx HF']; subst. destruct Hd as [Hd1 Hd2].
-  unfold subs_of. cbn [map flat_map fst snd]. fold (subs_of items).
-  rewrite <- (map_map chunk_iter (fun w => (i_lbl x, w))).
+  rewrite subs_of_cons.
   destruct (item_split x Hx) as [E _]. rewrite E.
   rewrite group_adj_block.
   - rewrite (IH HF' Hd2). reflexivity.
@@ -75,7 +79,9 @@ Theorem select_identical_replicas mint maxt items :
   select mint maxt true (map (fun x => (i_lbl x, i_cs x)) items)
   = Some (map (fun x => (i_lbl x, in_range mint maxt (i_L x))) items).
 Proof.
-  intros HF Hd. unfold select. fold (subs_of items). rewrite (group_items items HF Hd).
+  intros HF Hd. unfold select. cbv zeta.
+  change (flat_map _ (map (fun x => (i_lbl x, i_cs x)) items)) with (subs_of items).
+  rewrite (group_items items HF Hd).
   clear Hd. induction items as [|x items IH]; [reflexivity|].
   inversion HF as [|? ? Hx HF']; subst. cbn [map sequence fst snd].
   destruct (item_split x Hx) as [_ Hsub]. destruct Hx as (Hraw & _).
